@@ -88,19 +88,30 @@ theorem lobe_split_convex (ior : K) (h : 0 ≤ ior) (n s : V3 K) (hn : n.normSq 
   simp only [lobeWeights]; exact ⟨by linarith [this.2.2], this.2.1⟩
 
 /-- **`RefractMaterial` samples the lobes with the probabilities its density reports.**
-`SampleSource` returns the mirror direction exactly when the uniform draw satisfies `u ≤ R`
-(an event of probability `R`) and the refracted one otherwise (`1−R`), with
-`R = reflectAmount(normal, dest)`; `SourceDensity` is `(1−R)·[source in the refracted cap] +
+`SampleSource` returns the mirror direction exactly when the uniform draw satisfies `u < R`
+(an event of probability `R` for `u` uniform on `[0,1)`) and the refracted one otherwise (`1−R`),
+with `R = reflectAmount(normal, dest)`; `SourceDensity` is `(1−R)·[source in the refracted cap] +
 R·[source in the mirror cap]`, times the cap density `2/ε` — the same `R`. -/
 theorem refract_sampler_matches_density (k : Consts K) (ior : K) (n s d : V3 K) (u : K) :
     refractSampleSource ior true n d u =
-      (if reflectAmount ior n d < u then refractInverse ior n d else reflectNeg n d) ∧
+      (if u < reflectAmount ior n d then reflectNeg n d else refractInverse ior n d) ∧
     refractSourceDensity k ior true n s d =
       ((if s.dot (refractInverse ior n d) < k.oneMinusEps then 0 else 1 - reflectAmount ior n d) +
        (if s.dot (reflectNeg n d) < k.oneMinusEps then 0 else reflectAmount ior n d)) * 2 / k.eps := by
   refine ⟨by simp [refractSampleSource], ?_⟩
   simp only [refractSourceDensity, Bool.not_true, Bool.false_eq_true, if_false]
   split_ifs <;> simp
+
+/-- **The lobe `RefractMaterial.SampleSource` returns always has positive weight in the density**
+(after the boundary repair `u < R`): for a draw `u ∈ [0,1)` and `R ∈ [0,1]`, the mirror lobe is
+returned only if `R > 0` and the refracted lobe only if `1 − R > 0` — the sampler never returns a
+direction whose reported density is zero, not even on the measure-zero boundary `u = R`. -/
+theorem refract_sample_has_positive_weight (ior : K) (n d : V3 K) (u : K) (hu0 : 0 ≤ u) (hu1 : u < 1) :
+    (refractSampleSource ior true n d u = reflectNeg n d ∧ 0 < reflectAmount ior n d) ∨
+    (refractSampleSource ior true n d u = refractInverse ior n d ∧ 0 < 1 - reflectAmount ior n d) := by
+  by_cases h : u < reflectAmount ior n d
+  · left; exact ⟨by simp [refractSampleSource, h], lt_of_le_of_lt hu0 h⟩
+  · right; exact ⟨by simp [refractSampleSource, h], by linarith [not_lt.mp h]⟩
 
 /-- **`DestDensity`/`SampleDest` of `RefractMaterial` are `SourceDensity`/`SampleSource` with the
 normal flipped and the roles of the two directions exchanged** — the same exchange in sampler
@@ -211,6 +222,124 @@ theorem lambert_energy (df n s d : V3 K) (h : 0 ≤ d.dot n) (hs : s.dot n ≤ 0
   simp only [lambertBSDF, lambertDensity, if_neg h1, h2, if_neg (not_lt.mpr h), V3.scale]
   ring
 
+
+/-- **The delta lobes of `RefractMaterial` reflect/transmit at most the incident energy**: each lobe's
+BSDF times the outgoing cosine is pointwise at most the density of the uniform cap of half-angle
+cosine `1−ε` around the refracted (resp. mirror) direction — a density that integrates to one
+(`uniform_cap_cdf`). -/
+theorem refract_lobe_energy_pointwise (k : Consts K) (hk : 0 < k.eps) (hk1 : k.oneMinusEps = 1 - k.eps)
+    (ior : K) (n s d : V3 K) :
+    refractBSDF k ior n s d * absS (d.dot n) ≤ aroundUniformDensity k.oneMinusEps (refract ior n s) d ∧
+    reflectBSDF k n s d * absS (d.dot n) ≤ aroundUniformDensity k.oneMinusEps (reflectNeg n s) d := by
+  have h2e : 0 ≤ 2 / k.eps := by positivity
+  have hcap : 2 / (1 - k.oneMinusEps) = 2 / k.eps := by rw [hk1]; ring_nf
+  have habs := absS_nonneg (d.dot n)
+  constructor
+  · simp only [refractBSDF, aroundUniformDensity, dot_comm (refract ior n s) d, hcap]
+    split_ifs
+    · simp
+    · have hm : 0 < maxS k.eps (absS (d.dot n)) := by rw [maxS_eq_max]; exact lt_of_lt_of_le hk (le_max_left _ _)
+      have hle : absS (d.dot n) ≤ maxS k.eps (absS (d.dot n)) := by rw [maxS_eq_max]; exact le_max_right _ _
+      have : 1 / maxS k.eps (absS (d.dot n)) * 2 / k.eps * absS (d.dot n) =
+          (absS (d.dot n) / maxS k.eps (absS (d.dot n))) * (2 / k.eps) := by field_simp
+      rw [this]
+      have h1 : absS (d.dot n) / maxS k.eps (absS (d.dot n)) ≤ 1 := (div_le_one hm).mpr hle
+      nlinarith
+  · simp only [reflectBSDF, aroundUniformDensity, dot_comm (reflectNeg n s) d, hcap]
+    split_ifs
+    · simp
+    · have hm : 0 < maximumCosine k (d.dot n) (s.dot n) := by
+        simp only [maximumCosine, maxS_eq_max]; exact lt_of_lt_of_le hk (le_max_right _ _)
+      have hle : absS (d.dot n) ≤ maximumCosine k (d.dot n) (s.dot n) := by
+        simp only [maximumCosine, maxS_eq_max]
+        exact le_trans (le_max_left _ _) (le_max_left _ _)
+      have : 1 / maximumCosine k (d.dot n) (s.dot n) * 2 / k.eps * absS (d.dot n) =
+          (absS (d.dot n) / maximumCosine k (d.dot n) (s.dot n)) * (2 / k.eps) := by field_simp
+      rw [this]
+      have h1 : absS (d.dot n) / maximumCosine k (d.dot n) (s.dot n) ≤ 1 := (div_le_one hm).mpr hle
+      nlinarith
+
+/-- **Energy conservation of `RefractMaterial`**: for every linear functional `I` ("integrate
+BSDF·cos over outgoing directions"), the reflected+transmitted energy of a channel is the convex
+combination `(1−R)·RefractColor·E_refr + R·SpecularColor·E_mirror` of the two lobes' energies
+(`R = reflectAmount(normal, source)` does not depend on the outgoing direction), hence at most one
+when each lobe's energy and each colour is in `[0,1]`. -/
+theorem refract_energy_le (k : Consts K) (ior : K) (rc sc n s : V3 K) (I : (V3 K → K) → K) (cosOut : V3 K → K)
+    (hadd : ∀ f g, I (fun x => f x + g x) = I f + I g) (hsmul : ∀ (c : K) f, I (fun x => c * f x) = c * I f)
+    (hR0 : 0 ≤ reflectAmount ior n s) (hR1 : reflectAmount ior n s ≤ 1)
+    (hrc0 : 0 ≤ rc.x) (hrc : rc.x ≤ 1) (hsc0 : 0 ≤ sc.x) (hsc : sc.x ≤ 1)
+    (hE1' : I (fun d => refractBSDF k ior n s d * cosOut d) ≤ 1)
+    (hE2' : I (fun d => reflectBSDF k n s d * cosOut d) ≤ 1) :
+    I (fun d => (refractMatBSDF k ior true rc sc n s d).x * cosOut d) =
+      rc.x * (1 - reflectAmount ior n s) * I (fun d => refractBSDF k ior n s d * cosOut d) +
+      sc.x * reflectAmount ior n s * I (fun d => reflectBSDF k n s d * cosOut d) ∧
+    I (fun d => (refractMatBSDF k ior true rc sc n s d).x * cosOut d) ≤ 1 ∧
+    I (fun d => (refractMatBSDF k ior false rc sc n s d).x * cosOut d) ≤ 1 := by
+  set R := reflectAmount ior n s with hRdef
+  set E1 := I (fun d => refractBSDF k ior n s d * cosOut d) with hE1def
+  set E2 := I (fun d => reflectBSDF k n s d * cosOut d) with hE2def
+  have e1 : (fun d => (refractMatBSDF k ior true rc sc n s d).x * cosOut d) =
+      fun d => (rc.x * (1 - R)) * (refractBSDF k ior n s d * cosOut d) +
+        (sc.x * R) * (reflectBSDF k n s d * cosOut d) := by
+    funext d
+    simp only [refractMatBSDF, lobeWeights, V3.add, V3.scale, Bool.not_true, Bool.false_eq_true, if_false]
+    ring
+  have e2 : (fun d => (refractMatBSDF k ior false rc sc n s d).x * cosOut d) =
+      fun d => rc.x * (refractBSDF k ior n s d * cosOut d) := by
+    funext d
+    simp only [refractMatBSDF, V3.scale, Bool.not_false, if_true]
+    ring
+  have main : I (fun d => (refractMatBSDF k ior true rc sc n s d).x * cosOut d) =
+      rc.x * (1 - R) * E1 + sc.x * R * E2 := by
+    rw [e1, hadd (fun d => (rc.x * (1 - R)) * (refractBSDF k ior n s d * cosOut d)), hsmul, hsmul]
+  refine ⟨main, ?_, ?_⟩
+  · rw [main]
+    have a1 : rc.x * (1 - R) * E1 ≤ 1 - R := by
+      have : rc.x * E1 ≤ 1 := by nlinarith
+      nlinarith
+    have a2 : sc.x * R * E2 ≤ R := by
+      have : sc.x * E2 ≤ 1 := by nlinarith
+      nlinarith
+    linarith
+  · rw [e2, hsmul]; nlinarith
+
+/-- **Energy of `JoinedMaterial` is the sum of its lobes' energies** (`BSDF` adds the lobes'
+values): for every linear functional `I`, `I(BSDF_joined·cos) = Σ I(BSDFᵢ·cos)`, so it is at most
+one whenever the lobes' energies sum to at most one. -/
+theorem joined_energy {X : Type} (I : (X → K) → K) (cosOut : X → K)
+    (hadd : ∀ f g, I (fun x => f x + g x) = I f + I g) (hzero : I (fun _ => 0) = 0)
+    (bs : List (X → V3 K)) :
+    I (fun d => (joinBSDF (bs.map fun b => b d)).x * cosOut d) =
+      (bs.map fun b => I (fun d => (b d).x * cosOut d)).sum := by
+  simp only [joinBSDF_x, List.map_map]
+  induction bs with
+  | nil => simpa using hzero
+  | cons b bs ih =>
+    simp only [List.map_cons, List.sum_cons, Function.comp]
+    have : (fun d => ((b d).x + (List.map (V3.x ∘ fun b => b d) bs).sum) * cosOut d) =
+        fun d => (b d).x * cosOut d + (List.map (V3.x ∘ fun b => b d) bs).sum * cosOut d := by
+      funext d; ring
+    rw [this, hadd, ih]
+
+/-- **Energy of `HGMaterial`**: with the normal-cosine cancellation the BSDF times the incoming
+cosine is at most `ScatterColor ×` the phase density (which integrates to one, `hg_cdf`) — the floor
+`1e-5` only ever lowers it; with `IgnoreNormals` the BSDF is `ScatterColor × density` exactly.  So the
+scattered fraction is at most `ScatterColor`. -/
+theorem hg_energy_le (k : Consts K) (hk : 0 < k.hgEps) (sc n s : V3 K) (dens : K) (hsc : 0 ≤ sc.x) (hd : 0 ≤ dens) :
+    (hgBSDF k sc false n s dens).x * absS (s.dot n) ≤ sc.x * dens ∧
+    (hgBSDF k sc true n s dens).x = sc.x * dens := by
+  constructor
+  · simp only [hgBSDF, V3.scale, Bool.false_eq_true, if_false]
+    have hm : 0 < maxS k.hgEps (absS (s.dot n)) := by rw [maxS_eq_max]; exact lt_of_lt_of_le hk (le_max_left _ _)
+    have hle : absS (s.dot n) ≤ maxS k.hgEps (absS (s.dot n)) := by rw [maxS_eq_max]; exact le_max_right _ _
+    have e : sc.x * (dens / maxS k.hgEps (absS (s.dot n))) * absS (s.dot n) =
+        sc.x * dens * (absS (s.dot n) / maxS k.hgEps (absS (s.dot n))) := by field_simp
+    rw [e]
+    have h1 : absS (s.dot n) / maxS k.hgEps (absS (s.dot n)) ≤ 1 := (div_le_one hm).mpr hle
+    have h0 : 0 ≤ sc.x * dens := mul_nonneg hsc hd
+    nlinarith
+  · simp only [hgBSDF, V3.scale, if_true]
+
 /-! ## 4. Area lights -/
 
 /-- **Parts are selected in proportion to their weight** (`MeshAreaLight`: triangle areas;
@@ -244,6 +373,30 @@ theorem cylinder_part_proportional (k : Consts K) (p1 p2 : V3 K) (r u2 : K) :
   · simp [h1, h2]
   · simp [h1, h2, not_lt.mp h2]
   · simp [h1, not_lt.mp h1]
+
+/-- **`JoinAreaLights` samples each part in proportion to its `TotalEmission`, and a part of zero
+weight (a light that emits nothing, a zero-area triangle of a mesh light) is never selected by a
+positive draw.**  With `ws` the parts' `TotalEmission`s (resp. triangle areas), `T` their sum and a
+draw `u` with `0 < u·T ≤ T`: the selected part `i` has `ws[i] > 0` and `cum(i−1) < u·T ≤ cum(i)`
+(an interval of `u` of length `ws[i]/T`); `TotalEmission` of the join is `T`.  For a part that emits
+`e` (summed over channels) from an area `A > 0`, `ws[i] = e·A`, so the density of its sampled points
+per unit area is `(ws[i]/T)·(1/A) = e/T`: proportional to the emission, as the interface requires.
+The draw `u = 0` (probability `2⁻⁶³`) selects part 0 whatever its weight; that boundary is out of
+scope (measure zero) and mirrored by the model. -/
+theorem join_lights_selection_proportional (ws : List K) (hnn : ∀ w ∈ ws, 0 ≤ w) (hne : ws ≠ []) (u : K)
+    (hu : u * ws.sum ≤ ws.sum) (hpos : 0 < u * ws.sum) :
+    (∃ h : selectIdx ws u < ws.length, 0 < ws[selectIdx ws u]) ∧
+    u * ws.sum ≤ (ws.take (selectIdx ws u + 1)).sum ∧
+    (∀ j, j < selectIdx ws u → (ws.take (j + 1)).sum < u * ws.sum) ∧
+    total ws = ws.sum ∧
+    (∀ e A T : K, 0 < A → 0 < T → (e * A / T) * (1 / A) = e / T) := by
+  have h := selectIdx_spec hnn hne hu
+  refine ⟨selectIdx_weight_pos hnn hne hu hpos, h.2.1, h.2.2, total_eq_sum ws, fun e A T hA hT => ?_⟩
+  field_simp
+
+example : selectIdx [(0 : ℚ), 0, 3, 0, 1] (1 / 2) = 2 ∧ selectIdx [(0 : ℚ), 0, 3, 0, 1] (7 / 8) = 4 ∧
+    selectIdx [(0 : ℚ), 0, 3, 0, 1] (3 / 4) = 2 := by
+  refine ⟨?_, ?_, ?_⟩ <;> decide +kernel
 
 /-- Non-vacuity: the square-root hypothesis `SqrtOK` holds of `Real.sqrt`; the HG constants. -/
 example : SqrtOK ℝ := sqrtOK_real
@@ -383,17 +536,63 @@ theorem triangle_sample_on_plane (hs : SqrtOK K) (t : Tri K) (r1 r2 : K) (ht : 0
     rw [this, zero_div]
   · rw [Tri.normal, normalize_dot, ← normSq_eq_dot]; exact div_pos ht (norm_pos hs ht)
 
-/-- The map `(r₁, r₂) ↦ (r₁(1−r₂), r₁r₂)` (two of the barycentric coordinates) has Jacobian
-determinant `r₁`; with `r₁ = √u` (`du = 2r₁ dr₁`) the density of the point is constant — the
-algebraic core of "uniform on the triangle".  *Partial*: the partial derivatives are written out
-by hand (the map is bilinear) rather than derived with `HasFDerivAt`. -/
-theorem triangle_jacobian_partial (r1 r2 : K) :
-    let d11 := 1 - r2      -- ∂(r1(1-r2))/∂r1
-    let d12 := -r1         -- ∂(r1(1-r2))/∂r2
-    let d21 := r2          -- ∂(r1 r2)/∂r1
-    let d22 := r1          -- ∂(r1 r2)/∂r2
-    d11 * d22 - d12 * d21 = r1 ∧ (triBary r1 r2).2.1 = r1 * (1 - r2) ∧ (triBary r1 r2).2.2 = r1 * r2 := by
-  exact ⟨by ring, rfl, rfl⟩
+/-- **The triangle map has constant Jacobian** (ℝ, Fréchet derivative): the map
+`(u, r₂) ↦ (√u(1−r₂), √u·r₂)` from the two draws to the free barycentric coordinates — literally
+`triBary (sqrt u) r₂` of the model — is differentiable at every `u > 0` and the 2×2 determinant of
+its derivative is `1/2`, independent of the point; the sampled point is the affine image
+`a + w₁(b−a) + w₂(c−a)` of those coordinates, so its density on the triangle is constant. -/
+theorem triangle_jacobian (u r2 : ℝ) (hu : 0 < u) (t : Tri ℝ) :
+    (∃ f' : ℝ × ℝ →L[ℝ] ℝ × ℝ, HasFDerivAt triMap f' (u, r2) ∧
+      (f' (1, 0)).1 * (f' (0, 1)).2 - (f' (0, 1)).1 * (f' (1, 0)).2 = 1 / 2) ∧
+    triMap (u, r2) = ((triBary (sqrt u) r2).2.1, (triBary (sqrt u) r2).2.2) ∧
+    triPoint t (sqrt u) r2 =
+      (t.a.add ((t.b.sub t.a).scale (triMap (u, r2)).1)).add ((t.c.sub t.a).scale (triMap (u, r2)).2) := by
+  refine ⟨triMap_fderiv hu, rfl, ?_⟩
+  simp only [triPoint, triBary, triMap, sqrt_real]
+  apply V3.ext' <;> simp only [V3.add, V3.sub, V3.scale] <;> ring
+
+/-- **The triangle map preserves area fractions** (measure statement on a generating family, any
+ordered field).  For `t, q ∈ [0,1]` let `S(t,q)` be the sub-triangle `a, a+t(b−a), a+t(d−a)` with
+`d = b+q(c−b)` — in barycentric terms `w₀ ≥ 1−t ∧ w₂ ≤ q(w₁+w₂)`.  Then (i) a pair of draws
+`(u, r₂)` is mapped into `S(t,q)` iff `u ≤ t² ∧ (r₂ ≤ q ∨ u` is the null value `√u = 0)`: the
+preimage is the rectangle `[0,t²]×[0,q]` (plus a null segment), of area `t²·q`; (ii) the cross
+product (twice the signed area vector) of `S(t,q)` is `t²·q` times that of the triangle.  The
+rectangles `[0,t²]×[0,q]` generate the Borel sets of the unit square, so the image of the uniform
+law on draws is the uniform law on the triangle. -/
+theorem triangle_map_area_preserving (hs : SqrtOK K) (t q u r2 : K) (ht : 0 ≤ t) (hu : 0 ≤ u) (tri : Tri K) :
+    (let w := triBary (sqrt u) r2
+     (1 - t ≤ w.1 ∧ w.2.2 ≤ q * (w.2.1 + w.2.2)) ↔ (u ≤ t * t ∧ (r2 ≤ q ∨ sqrt u = 0))) ∧
+    (let d := tri.b.add ((tri.c.sub tri.b).scale q)
+     let sub : Tri K := ⟨tri.a, tri.a.add ((tri.b.sub tri.a).scale t), tri.a.add ((d.sub tri.a).scale t)⟩
+     sub.crossProduct = tri.crossProduct.scale (t * t * q)) := by
+  have hsq := hs.sq u hu
+  have hn := hs.nonneg u
+  constructor
+  · simp only [triBary]
+    constructor
+    · rintro ⟨h1, h2⟩
+      have hle : sqrt u ≤ t := by linarith
+      refine ⟨by nlinarith, ?_⟩
+      rcases hn.lt_or_eq with hpos | h0
+      · left
+        have : sqrt u * r2 ≤ sqrt u * q := by nlinarith
+        exact le_of_mul_le_mul_left this hpos
+      · right; exact h0.symm
+    · rintro ⟨h1, h2⟩
+      have hle : sqrt u ≤ t := by
+        by_contra hc
+        have : t < sqrt u := not_le.mp hc
+        nlinarith
+      refine ⟨by linarith, ?_⟩
+      rcases h2 with h2 | h2
+      · nlinarith
+      · rw [h2]; simp
+  · simp only [Tri.crossProduct]
+    apply V3.ext' <;> simp only [V3.cross, V3.add, V3.sub, V3.scale] <;> ring
+
+example : (triBary (1 / 2 : ℚ) (1 / 2)).1 = 1 / 2 ∧ (triBary (1 / 2 : ℚ) (1 / 2)).2.1 = 1 / 4 ∧
+    (triBary (1 / 2 : ℚ) (1 / 2)).2.2 = 1 / 4 := by
+  refine ⟨?_, ?_, ?_⟩ <;> simp only [triBary] <;> norm_num
 
 /-- `MeshAreaLight.SampleLight` returns a point of the selected triangle of the light's own list
 with that triangle's normal. -/
@@ -546,5 +745,120 @@ theorem focus_info_tangent_cone (hs : SqrtOK K) (center point : V3 K) (r : K) (h
   refine ⟨hs.sq _ (by nlinarith), hs.nonneg _, ?_⟩
   have := normalize_normSq hs hd
   rwa [normSq_eq_dot] at this
+
+/-- **`HGMaterial.SampleSource` always returns a direction** (after the clamp repair): for every raw
+`G`, every draw `u` and every unit circle point the sample is a unit vector whose cosine with `dest`
+is the clamped sampled cosine — the argument of the square root is never negative.  And the clamp
+does not change the law: in exact arithmetic the sampled cosine already lies in `[−1,1]` for every
+`u ∈ [0,1]`. -/
+theorem hg_sample_is_direction (hs : SqrtOK K) (k : Consts K) (graw : K) (dest : V3 K)
+    (hdest : dest.dot dest = 1) (u c s : K) (hcs : c * c + s * s = 1) :
+    (hgSample k graw dest u c s).dot (hgSample k graw dest u c s) = 1 ∧
+    dest.dot (hgSample k graw dest u c s) = clampUnit (hgCos (hgNumericalG k graw) (u * 2 - 1)) ∧
+    (0 < k.hgEps → k.hgEps ≤ k.hgMax → k.hgMax < 1 → 0 ≤ u → u ≤ 1 →
+      clampUnit (hgCos (hgNumericalG k graw) (u * 2 - 1)) = hgCos (hgNumericalG k graw) (u * 2 - 1)) := by
+  have hb := orthoBasis_spec hs (c := dest) (by rw [normSq_eq_dot, hdest]; exact one_pos)
+  obtain ⟨h1, h2⟩ := clampUnit_range (hgCos (hgNumericalG k graw) (u * 2 - 1))
+  set cl := clampUnit (hgCos (hgNumericalG k graw) (u * 2 - 1)) with hcl
+  have hsl := hs.sq (1 - cl * cl) (by nlinarith)
+  refine ⟨?_, ?_, fun h0 h01 h02 hu0 hu1 => ?_⟩
+  · simp only [hgSample, ← hcl]
+    exact around_sample_unit hb hdest hcs (by linarith)
+  · simp only [hgSample, ← hcl]
+    exact around_sample_dot hb hdest c s cl _
+  · obtain ⟨hg0, hg1, hg2⟩ := hgNumericalG_range k h0 h01 h02 graw
+    obtain ⟨_, _, _, hl, hr⟩ := hg_algebra hg0 hg1 hg2 (s := u * 2 - 1) (by linarith) (by linarith)
+    exact clampUnit_id hl hr
+
+/-- **`SphereFocusPoint`: `FocusDensity` is the density `SampleFocus` draws from**, as a theorem over
+the radial law (ℝ, with the code's `acos`/`cos`/`sin`).  (i) Both methods take the same branch: when
+the point is inside the sphere or the material is filtered out they return the material's own sample
+and the material's own density.  (ii) Otherwise (`radius > 0`), for the draw `u ∈ [0,1]` the sample is
+a unit vector whose cosine with `dir` (unit, from the centre to the point) is `x = 1 − u(1−m)`
+∈ `[m,1]`, with `m < 1` the tangent-cone cosine of `focusInfo`; `FocusDensity` at that sample is the
+constant `2/(1−m)` — the density whose CDF `uniform_cap_cdf` inverts. -/
+theorem focus_density_matches_sampler (center point : V3 ℝ) (r : ℝ) (matSample : V3 ℝ) (md : ℝ)
+    (u c s : ℝ) (hu0 : 0 ≤ u) (hu1 : u ≤ 1) (hcs : c * c + s * s = 1) :
+    (∀ focus cl sl, (center.dist point < r ∨ focus = false) →
+      sphereFocusSample center r point focus matSample cl sl c s = matSample ∧
+      ∀ src, sphereFocusDensity center r point focus md src = md) ∧
+    (0 < r → ¬ center.dist point < r →
+      let fi := focusInfo center r point
+      let x := capCos fi.1 u
+      let smp := sphereFocusSample center r point true matSample
+        (Real.cos (Real.arccos x)) (Real.sin (Real.arccos x)) c s
+      fi.1 < 1 ∧ fi.1 ≤ x ∧ x ≤ 1 ∧ fi.2.dot smp = x ∧ smp.dot smp = 1 ∧
+        sphereFocusDensity center r point true md smp = 2 / (1 - fi.1)) := by
+  constructor
+  · intro focus cl sl hcond
+    exact ⟨by simp only [sphereFocusSample, if_pos hcond], fun src => by simp only [sphereFocusDensity, if_pos hcond]⟩
+  · intro hr hout
+    have hdist : center.dist point = (point.sub center).norm := by
+      simp only [V3.dist, V3.norm, V3.sub]; congr 1; ring
+    have hout' : ¬ (point.sub center).norm < r := by rwa [← hdist]
+    have hnpos : 0 < (point.sub center).norm := lt_of_lt_of_le hr (not_lt.mp hout')
+    have hd : 0 < (point.sub center).normSq := by
+      have := norm_mul_self sqrtOK_real (point.sub center)
+      nlinarith
+    obtain ⟨hm2, hm0, hdir⟩ := focus_info_tangent_cone sqrtOK_real center point r hr.le hd hout'
+    have hratio : 0 < r / (point.sub center).norm := div_pos hr hnpos
+    have hm1 : (focusInfo center r point).1 < 1 := by
+      by_contra hc
+      have : 1 ≤ (focusInfo center r point).1 := not_lt.mp hc
+      nlinarith [mul_pos hratio hratio]
+    obtain ⟨hx0, hx1, _, hdens, _⟩ := uniform_cap_cdf (focusInfo center r point).1 hm1 u hu0 hu1
+      (focusInfo center r point).2 matSample
+    have hcond : ¬ (center.dist point < r ∨ true = false) := by simp [hout]
+    have hb := orthoBasis_spec sqrtOK_real (c := (focusInfo center r point).2)
+      (by rw [normSq_eq_dot, hdir]; exact one_pos)
+    have hxm1 : -1 ≤ capCos (focusInfo center r point).1 u := by linarith
+    have hcos := Real.cos_arccos hxm1 hx1
+    have hunit : Real.cos (Real.arccos (capCos (focusInfo center r point).1 u)) *
+        Real.cos (Real.arccos (capCos (focusInfo center r point).1 u)) +
+        Real.sin (Real.arccos (capCos (focusInfo center r point).1 u)) *
+        Real.sin (Real.arccos (capCos (focusInfo center r point).1 u)) = 1 := by
+      have := Real.sin_sq_add_cos_sq (Real.arccos (capCos (focusInfo center r point).1 u))
+      nlinarith
+    have hdot : (focusInfo center r point).2.dot
+        (sphereFocusSample center r point true matSample
+          (Real.cos (Real.arccos (capCos (focusInfo center r point).1 u)))
+          (Real.sin (Real.arccos (capCos (focusInfo center r point).1 u))) c s) =
+        capCos (focusInfo center r point).1 u := by
+      simp only [sphereFocusSample, if_neg hcond, aroundUniformSample]
+      rw [around_sample_dot hb hdir c s _ _, hcos]
+    refine ⟨hm1, hx0, hx1, hdot, ?_, ?_⟩
+    · simp only [sphereFocusSample, if_neg hcond, aroundUniformSample]
+      exact around_sample_unit hb hdir hcs hunit
+    · simp only [sphereFocusDensity, if_neg hcond]
+      simp only [aroundUniformDensity, hdot, if_neg (not_lt.mpr hx0)]
+
+/-- **`PhongFocusPoint`: `FocusDensity` is the density `SampleFocus` draws from.**  (i) When
+`Target == point` or the material is filtered out both methods defer to the material.  (ii) Otherwise
+both use the same unit direction `normalize(point − Target)`; the sample is a unit vector whose
+cosine with it is the radial variable `cosLat = v^{1/(α+1)}`, and `FocusDensity` at the sample is
+`densityAroundDirection` of that same direction — `2(α+1)·cosLatᵅ` by `phong_cdf`, whose CDF the
+radial map inverts. -/
+theorem focus_density_matches_sampler_phong (hs : SqrtOK K) (target point : V3 K)
+    (hne : 0 < (point.sub target).normSq) (alpha md p2 cosLat c s : K) (matSample : V3 K)
+    (hcs : c * c + s * s = 1) (hcl : cosLat * cosLat ≤ 1) :
+    (∀ same focus, (same = true ∨ focus = false) →
+      phongFocusSample target point same focus matSample cosLat c s = matSample ∧
+      ∀ src, phongFocusDensity target point same focus alpha md src p2 = md) ∧
+    (let dir := phongFocusDir target point
+     let smp := phongFocusSample target point false true matSample cosLat c s
+     dir.dot dir = 1 ∧ dir.dot smp = cosLat ∧ smp.dot smp = 1 ∧
+       phongFocusDensity target point false true alpha md smp p2 = aroundDirDensity alpha dir smp p2) := by
+  constructor
+  · intro same focus hcond
+    exact ⟨by simp only [phongFocusSample, if_pos hcond], fun src => by simp only [phongFocusDensity, if_pos hcond]⟩
+  · have hdir : (phongFocusDir target point).dot (phongFocusDir target point) = 1 := by
+      have := normalize_normSq hs hne
+      rwa [normSq_eq_dot] at this
+    have hcond : ¬ (false = true ∨ true = false) := by simp
+    obtain ⟨h1, h2⟩ := lobe_sample_cosine hs (phongFocusDir target point) hdir cosLat c s hcs hcl
+    refine ⟨hdir, ?_, ?_, ?_⟩
+    · simp only [phongFocusSample, if_neg hcond]; exact h1
+    · simp only [phongFocusSample, if_neg hcond]; exact h2
+    · simp only [phongFocusDensity, if_neg hcond]
 
 end M3d.C19
